@@ -670,8 +670,13 @@ def r_expand(P, rep, protect):
     for f in ('new_num_token', 'new_str_token', 'paste', 'stringize', 'init_macros'):
         if f not in u.functions:
             raise AnalysisBroken('anchor %s vanished' % f)
-    for f, want in (('new_num_token', 'tokenize('), ('new_str_token', 'tokenize('), ('stringize', 'new_str_token('), ('paste', 'tokenize(')):
-        itw = PInterp(P, u, {'opaque': ['tokenize', 'new_file', 'quote_string', 'join_tokens', 'new_str_token'] if f != 'new_str_token' else ['tokenize', 'new_file', 'quote_string'], 'cut': {'format': None}})
+    # (stringize may hand its text to new_str_token() or - like paste - spell the literal itself and tokenise it: both give the
+    # first token of a fresh scratch buffer)
+    for f, want in (('new_num_token', ('tokenize(',)), ('new_str_token', ('tokenize(',)), ('stringize', ('new_str_token(', 'tokenize(')), ('paste', ('tokenize(',))):
+        # helpers that only build the text to be tokenised (char * results: join_tokens and its variants, quote_string) stay opaque
+        texters = sorted(set(g for c in u.fn(f).walk() if c.kind == 'CallExpr' for g in [c.callee()]
+                             if g and g in u.functions and g != f and (u.fn(g).type or '').split('(')[0].replace(' ', '') == 'char*'))
+        itw = PInterp(P, u, {'opaque': (['tokenize', 'new_file', 'quote_string', 'join_tokens', 'new_str_token'] if f != 'new_str_token' else ['tokenize', 'new_file', 'quote_string']) + texters, 'cut': {'format': None}})
         params = u.params(f)
         def mkw(ctx, params=params):
             return [Obj('Token', lazy=True, label=p.name) if (p.type or '').replace(' ', '') == 'Token*' else Sym(p.name or 'a', p.type) for p in params]
@@ -683,7 +688,7 @@ def r_expand(P, rep, protect):
             rep.undecided('R19.2', '%s:%s:no-return' % (PU, f), '%s has no returning path' % f, where='%s:%d' % (PU, u.fn(f).line))
         else:
             rep.ob('R19.2', '%s:%s:returns-fresh-tokenisation' % (PU, f), all(oks),
-                   '%s no longer returns a token straight from %s..): the assumption "created tokens start with at_bol=true/has_space=false" does not hold' % (f, want), where='%s:%d' % (PU, u.fn(f).line))
+                   '%s no longer returns a token straight from %s..): the assumption "created tokens start with at_bol=true/has_space=false" does not hold' % (f, '..) / '.join(want)), where='%s:%d' % (PU, u.fn(f).line))
     # what the creators leave in the two flags of the token they return (the explorations of expand_macro and subst use exactly this)
     summ = creator_summaries(P, u)
     for f in CREATORS:
